@@ -27,7 +27,7 @@ na = {
 ENV = "GOFLAGS=-mod=mod GOPROXY=off GOSUMDB=off GOTOOLCHAIN=local"
 m = {
  "version": 1,
- "setup_cmd": f"cd /verif/siminstr && {ENV} /opt/veriftools/go1.26.8/bin/go build -o /verif/bin/siminstr . && cd /verif/simrt && {ENV} /opt/veriftools/go1.26.8/bin/go build ./...",
+ "setup_cmd": f"cd /verif/siminstr && {ENV} /opt/veriftools/go1.26.8/bin/go build -o /verif/bin/siminstr . && cd /verif/simrt && {ENV} /opt/veriftools/go1.26.8/bin/go build ./... && {ENV} /opt/veriftools/go1.26.8/bin/go build -race std",
  "hooks": {
   "guard": "none (no hook is committed to /repo)",
   "enable": "every check copies /repo's working tree to a scratch directory and AST-instruments the copy (/verif/siminstr): yields before channel operations, go statements through simrt.Go, simulated clock; /repo itself is never modified",
@@ -42,6 +42,8 @@ m = {
    "kind_free_text": "same controller plus discrete-event clock; FaultRepo wrappers inject per-asset failures; worker interleavings and timer firings are scheduling decisions"},
   {"name": "backtest-sim", "path": "/verif/harness (c13.go)", "serves_properties": ["C13"],
    "kind_free_text": "same controller; recording report stub, real DataReport/HTMLReport writing into a per-run directory, simulated now"},
+  {"name": "race-mon", "path": "/verif/harness/race.go + /verif/check (phase 4b)", "serves_properties": ["C09", "C12", "C13"],
+   "kind_free_text": "companion for the data-race clause only: the same seeded workloads, un-instrumented and free-running under `go test -race` at GOMAXPROCS 1/4/16 inside a synctest bubble; runtime monitoring, not controlled simulation (stated in DESIGN.md 2.7)"},
   {"name": "pipeline-sim", "path": "/verif/simrt + /verif/siminstr + /verif/harness", "serves_properties": sorted(k for k in checks if checks[k][0]=="pipeline-sim"),
    "kind_free_text": "deterministic simulation: real goroutines and channels of the instrumented library, one task released at a time by a seeded controller at testing/synctest quiescence; harness-owned producers, consumers, stream ends and faults"},
  ],
